@@ -131,111 +131,140 @@ Definition load_spike_attrs (fs : files) (ns : Z) : res (list (string * arr)) :=
         end
     end) (Ok []) fs.
 
-Definition load (fs : files) (rate : tok) (ncd : option Z) : res loaded :=
-  (* spikes *)
-  do st <- load_spike_samples fs rate;
-  let '(samples, times) := st in
+Definition load_amps (fs : files) (ns : Z) : res (option arr) :=
+  match find_path P_amps fs with
+  | None => Ok None
+  | Some (_, a) => let x := read_full a in
+                   if (ndim x =? 1)%nat && zl_eqb (a_shape x) [ns] then Ok (Some x) else Err EAssert
+  end.
+
+Definition load_stemplates (fs : files) (ns : Z) : res arr :=
+  match find_path P_stemplates fs with
+  | None => Err EMissing
+  | Some (_, a) =>
+      let x := read_full a in
+      let x := if dt_is_float (a_dt x) then astype DI32 x else x in
+      if dt_in (a_dt x) [DU16; DU32; DI32; DI64] && zl_eqb (a_shape x) [ns] then Ok x else Err EAssert
+  end.
+
+(* the file feeding spike_clusters, and the copy created when it is absent *)
+Definition sclusters_source (fs : files) : res (arr * files) :=
+  match find_path P_sclusters fs with
+  | Some (_, a) => Ok (a, [])
+  | None => match find_path P_stemplates fs with
+            | None => Err EMissing
+            | Some (_, a) => Ok (a, [("spike_clusters.npy", a)])
+            end
+  end.
+Definition load_sclusters (fs : files) (ns : Z) : res (arr * files) :=
+  do sc <- sclusters_source fs;
+  let sclu := astype DI32 (read_full (fst sc)) in
+  if zl_eqb (a_shape sclu) [ns] then Ok (sclu, snd sc) else Err EAssert.
+
+Definition load_cmap (fs : files) (ncd : option Z) : res arr :=
+  match find_path P_cmap fs with
+  | None => Err EMissing
+  | Some (_, a) =>
+      let x := atleast_1d (read_full a) in
+      if negb ((ndim x =? 1)%nat && dt_in (a_dt x) [DU32; DI32; DI64]) then Err EAssert else
+      if match ncd with
+         | Some k => negb (forallb (fun t => match tok_Z t with Some z => z <=? k - 1 | None => false end) (a_data x))
+         | None => false end then Err EAssert else Ok x
+  end.
+
+Definition load_pos (fs : files) (nc : Z) : res arr :=
+  match find_path P_pos fs with
+  | None => Err EMissing
+  | Some (_, a) => let x := atleast_2d (read_full a) in
+                   if zl_eqb (a_shape x) [nc; 2] then Ok x else Err EAssert
+  end.
+
+Definition flatten (x : arr) : arr := mkarr (a_dt x) [prodZ (a_shape x)] (a_data x).   (* reshape((-1,)) *)
+Definition load_shanks (fs : files) (nc : Z) : res arr :=
+  match find_path P_shanks fs with
+  | None => Ok (zeros DI32 [nc])
+  | Some (_, a) => let x := flatten (read_full a) in
+                   if zl_eqb (a_shape x) [nc] then Ok x else Err EAssert
+  end.
+Definition load_probes (fs : files) (nc : Z) : res arr :=
+  match find_path P_probes fs with
+  | None => Ok (zeros DI32 [nc])
+  | Some (_, a) => let x := atleast_1d (read_full a) in
+                   if zl_eqb (a_shape x) [nc] then Ok x else Err EAssert
+  end.
+
+Definition is_nan (v : tok) : bool := match v with TNaN => true | _ => false end.
+(* templates are memory-mapped (no scrubbing); all-NaN templates are zeroed in memory *)
+Definition zero_nan_templates (x : arr) : res arr :=
+  match a_shape x with
+  | [nt; nsw; ncl] =>
+      let per := Z.to_nat (nsw * ncl) in
+      let ts := chunks per (Z.to_nat nt) (a_data x) in
+      let ts' := map (fun t => if forallb is_nan t then repeat tzero per else t) ts in
+      Ok (mkarr (a_dt x) [nt; nsw; ncl] (List.concat ts'))
+  | _ => Err EAssert
+  end.
+Definition load_templates (fs : files) : res arr :=
+  match find_path P_templates fs with
+  | None => Err ERegime              (* no template file: outside the modelled regime *)
+  | Some (_, a) =>
+      let x := atleast_3d (read_mmap a) in
+      if negb (dt_is_float (a_dt x)) then Err EAssert else zero_nan_templates x
+  end.
+Definition load_tcols (fs : files) (nt ncl : Z) : res (option arr) :=
+  match find_path P_tcols fs with
+  | None => Ok None
+  | Some (_, a) => let x := read_full a in
+                   if zl_eqb (a_shape x) [nt; ncl] then Ok (Some x) else Err ERegime
+  end.
+
+Definition load_wm (fs : files) (nc : Z) : res arr :=
+  match find_path P_wm fs with
+  | None => Ok (eye nc)
+  | Some (_, a) => let x := atleast_2d (read_full a) in
+                   if zl_eqb (a_shape x) [nc; nc] then Ok x else Err EAssert
+  end.
+Definition load_wmi (fs : files) (nc : Z) (wm : arr) : res (arr * files) :=
+  match find_path P_wmi fs with
+  | Some (_, a) => let x := atleast_2d (read_full a) in
+                   if zl_eqb (a_shape x) [nc; nc] then Ok (x, []) else Err EAssert
+  | None => let x := inv_oracle wm in Ok (x, [("whitening_mat_inv.npy", x)])
+  end.
+Definition load_similar (fs : files) (nt : Z) : res arr :=
+  match find_path P_similar fs with
+  | None => Ok (zeros DF64 [nt; nt])
+  | Some (_, a) => let x := atleast_2d (read_full a) in
+                   if zl_eqb (a_shape x) [nt; nt] then Ok x else Err EAssert
+  end.
+
+Definition check_times (samples times : arr) : res Z :=
   if negb ((ndim samples =? 1)%nat && (ndim times =? 1)%nat) then Err EAssert else
-  let ns := hd 0 (a_shape times) in
   match toks_sorted (a_data times) with
   | None => Err ERegime
   | Some false => Err ERejected
-  | Some true =>
-  (* amplitudes *)
-  do amps <- match find_path P_amps fs with
-             | None => Ok None
-             | Some (_, a) => let x := read_full a in
-                              if (ndim x =? 1)%nat && zl_eqb (a_shape x) [ns] then Ok (Some x) else Err EAssert
-             end;
-  (* spike templates *)
-  do stemp <- match find_path P_stemplates fs with
-              | None => Err EMissing
-              | Some (_, a) =>
-                  let x := read_full a in
-                  let x := if dt_is_float (a_dt x) then astype DI32 x else x in
-                  if dt_in (a_dt x) [DU16; DU32; DI32; DI64] && zl_eqb (a_shape x) [ns] then Ok x else Err EAssert
-              end;
-  (* spike clusters: copy of the template file when absent *)
-  do sc <- match find_path P_sclusters fs with
-           | Some (_, a) => Ok (a, [])
-           | None => match find_path P_stemplates fs with
-                     | None => Err EMissing
-                     | Some (_, a) => Ok (a, [("spike_clusters.npy", a)])
-                     end
-           end;
-  let '(sc_file, created1) := sc in
-  let sclu := astype DI32 (read_full sc_file) in
-  if negb (zl_eqb (a_shape sclu) [ns]) then Err EAssert else
-  (* channels *)
-  do cmap <- match find_path P_cmap fs with
-             | None => Err EMissing
-             | Some (_, a) => let x := atleast_1d (read_full a) in
-                              if (ndim x =? 1)%nat && dt_in (a_dt x) [DU32; DI32; DI64] then Ok x else Err EAssert
-             end;
-  let nc := hd 0 (a_shape cmap) in
-  if match ncd with
-     | Some k => negb (forallb (fun t => match tok_Z t with Some z => z <=? k - 1 | None => false end) (a_data cmap))
-     | None => false end then Err EAssert else
-  do pos <- match find_path P_pos fs with
-            | None => Err EMissing
-            | Some (_, a) => let x := atleast_2d (read_full a) in
-                             if zl_eqb (a_shape x) [nc; 2] then Ok x else Err EAssert
-            end;
-  do shanks <- match find_path P_shanks fs with
-               | None => Ok (zeros DI32 [nc])
-               | Some (_, a) => let x := read_full a in
-                                let x := mkarr (a_dt x) [prodZ (a_shape x)] (a_data x) in    (* reshape((-1,)) *)
-                                if zl_eqb (a_shape x) [nc] then Ok x else Err EAssert
-               end;
-  do probes <- match find_path P_probes fs with
-               | None => Ok (zeros DI32 [nc])
-               | Some (_, a) => let x := atleast_1d (read_full a) in
-                                if zl_eqb (a_shape x) [nc] then Ok x else Err EAssert
-               end;
-  (* templates (memory-mapped: no scrubbing, but all-NaN templates are zeroed in memory) *)
-  do tmpl <- match find_path P_templates fs with
-             | None => Err ERegime              (* no template file: outside the modelled regime *)
-             | Some (_, a) =>
-                 let x := atleast_3d (read_mmap a) in
-                 if negb (dt_is_float (a_dt x)) then Err EAssert else
-                 match a_shape x with
-                 | [nt; nsw; ncl] =>
-                     let per := Z.to_nat (nsw * ncl) in
-                     let ts := chunks per (Z.to_nat nt) (a_data x) in
-                     let ts' := map (fun t => if forallb (fun v => match v with TNaN => true | _ => false end) t
-                                              then repeat tzero per else t) ts in
-                     Ok (mkarr (a_dt x) [nt; nsw; ncl] (List.concat ts'))
-                 | _ => Err EAssert
-                 end
-             end;
-  let nt := hd 0 (a_shape tmpl) in
-  let ncl := nth 2 (a_shape tmpl) 0 in
-  do tcols <- match find_path P_tcols fs with
-              | None => Ok None
-              | Some (_, a) => let x := read_full a in
-                               if zl_eqb (a_shape x) [nt; ncl] then Ok (Some x) else Err ERegime
-              end;
-  (* whitening *)
-  do wm <- match find_path P_wm fs with
-           | None => Ok (eye nc)
-           | Some (_, a) => let x := atleast_2d (read_full a) in
-                            if zl_eqb (a_shape x) [nc; nc] then Ok x else Err EAssert
-           end;
-  do wmi2 <- match find_path P_wmi fs with
-             | Some (_, a) => let x := atleast_2d (read_full a) in
-                              if zl_eqb (a_shape x) [nc; nc] then Ok (x, []) else Err EAssert
-             | None => let x := inv_oracle wm in Ok (x, [("whitening_mat_inv.npy", x)])
-             end;
-  let '(wmi, created2) := wmi2 in
-  do sim <- match find_path P_similar fs with
-            | None => Ok (zeros DF64 [nt; nt])
-            | Some (_, a) => let x := atleast_2d (read_full a) in
-                             if zl_eqb (a_shape x) [nt; nt] then Ok x else Err EAssert
-            end;
-  do attrs <- load_spike_attrs fs ns;
-  Ok (mkloaded samples times amps stemp sclu cmap pos shanks probes tmpl tcols wm wmi sim attrs
-               (created1 ++ created2))
+  | Some true => Ok (hd 0 (a_shape times))
   end.
+
+Definition load (fs : files) (rate : tok) (ncd : option Z) : res loaded :=
+  do st <- load_spike_samples fs rate;
+  do ns <- check_times (fst st) (snd st);
+  do amps <- load_amps fs ns;
+  do stemp <- load_stemplates fs ns;
+  do sc <- load_sclusters fs ns;
+  do cmap <- load_cmap fs ncd;
+  let nc := hd 0 (a_shape cmap) in
+  do pos <- load_pos fs nc;
+  do shanks <- load_shanks fs nc;
+  do probes <- load_probes fs nc;
+  do tmpl <- load_templates fs;
+  let nt := hd 0 (a_shape tmpl) in
+  do tcols <- load_tcols fs nt (nth 2 (a_shape tmpl) 0);
+  do wm <- load_wm fs nc;
+  do wmi <- load_wmi fs nc wm;
+  do sim <- load_similar fs nt;
+  do attrs <- load_spike_attrs fs ns;
+  Ok (mkloaded (fst st) (snd st) amps stemp (fst sc) cmap pos shanks probes tmpl tcols wm (fst wmi) sim attrs
+               (snd sc ++ snd wmi)).
 End Load.
 
 (* raw traces: the concatenated files with the columns selected by the channel map *)
